@@ -175,6 +175,9 @@ def run(ctx):
         ntot["classes"] += len(none_forms)
         ntot["odpor_executions"] += len(co)
         said_dup = "equivalent with an already explored one" in rod["out"]
+        if rod["rc"] != 0 and not said_dup:       # the exploration did not run to its end (e.g. the socket name was taken)
+            ctx.cov["programs_not_judged_odpor_run_failed"] = ctx.cov.get("programs_not_judged_odpor_run_failed", 0) + 1
+            continue
         m = re.findall(r"There are\s+(\d+) traces of size", rod["out"])
         said_n = sum(int(x) for x in m) if m else None
         files = {"program.json": json.dumps(p), "program.txt": K.prog_to_txt(p),
